@@ -322,6 +322,10 @@ func c26(ctx *hlib.Ctx) {
 	emit(c26cfg{compl, 10}, []c26op{ann(0, c26agent(1, false)), ann(0, c26agent(2, true)), ann(0, c26agent(3, false)),
 		ann(0, c26agent(4, true)), ann(0, c26agent(5, false), c26origin(101), c26origin(102)),
 		ann(0, c26agent(6, false), c26origin(102), c26origin(101))}, "seed-priority")
+	// the origin store lists a complete peer without the origin flag after an origin: classes are
+	// decided by the origin flag first (completeness_policy.go:28), so it must move in front
+	emit(c26cfg{compl, 5}, []c26op{ann(0, c26agent(1, true)), ann(0, c26agent(2, false), c26origin(101), c26peer{120, 120, 9120, false, true}),
+		ann(0, c26agent(3, false), c26peer{121, 121, 9121, true, false}, c26origin(101))}, "seed-origin-before-seeder")
 	// limits: 1, negative, and 0 = default
 	for _, l := range []int{1, 2, -1, 0} {
 		var ops []c26op
@@ -381,7 +385,7 @@ func c26(ctx *hlib.Ctx) {
 	// ---- random histories
 	maxOps := 20
 	if ctx.Tier == "thorough" {
-		maxOps = 50
+		maxOps = 40
 	}
 	for i := 0; i < ctx.N; i++ {
 		g := r.Fork()
@@ -431,7 +435,7 @@ func c26(ctx *hlib.Ctx) {
 			switch {
 			case kind == "big" && j < k:
 				done[key] = g.Chance(75) // mostly seeders while the swarm fills up (keeps the case small)
-			case !done[key] && g.Chance(30):
+			case !done[key] && g.Chance(14):
 				done[key] = true
 			case done[key] && g.Chance(4):
 				done[key] = false // "any completion flags": a peer may report incomplete again
